@@ -4,6 +4,7 @@
 (*                                                                         *)
 (* Adapter (abasic-web/src/lib.rs, JsInterpreter): wraps the core          *)
 (* interpreter; keeps an ERROR LATCH that is set when an evaluation fails, *)
+(* (with the source line and caret as rendered at that moment),           *)
 (* cleared only by take_latest_error, and ASSERTED empty on entry to       *)
 (* start_evaluating / continue_evaluating; swaps in a fresh interpreter    *)
 (* when the core requests it (NEW); get_state panics if it ever sees the   *)
@@ -17,7 +18,7 @@
 (* arrive between any two ticks.  The page's protocol is parameterised by  *)
 (* facts extracted from main.ts (LoaderChecksError, ...).                  *)
 (***************************************************************************)
-EXTENDS Abasic
+EXTENDS Conform
 
 CONSTANTS LoaderChecksError,     \* the loader looks at the adapter state after each submitted line and stops on an error
           LoaderSkipsBlank,      \* the loader skips blank lines
@@ -27,7 +28,9 @@ CONSTANTS LoaderChecksError,     \* the loader looks at the adapter state after 
 (* The adapter.  W == [I, latch (some, res), pend (outputs not yet taken), *)
 (* trap ("" or the reason)]                                                *)
 (***************************************************************************)
-NoLatch == [some |-> FALSE, res |-> ResOk]
+\* the latch holds the error and -- for start_evaluating only -- the source line and caret rendered when it was latched
+NoCaret == [ok |-> TRUE, lines |-> <<>>]
+NoLatch == [some |-> FALSE, res |-> ResOk, caret |-> NoCaret]
 NewAdapter == [I |-> Fresh, latch |-> NoLatch, pend |-> <<>>, trap |-> "", unk |-> FALSE]
 Trap(W, why) == IF W.trap = "" THEN [W EXCEPT !.trap = why] ELSE W
 
@@ -41,7 +44,9 @@ Evaluate(W, c) ==
     ELSE LET r == Step(W.I, c)
          IN  IF Unknown(r) THEN [W EXCEPT !.unk = TRUE, !.trap = "unknown"]
              ELSE IF r.res.ok THEN [W EXCEPT !.I = MaybeReplace(r.I), !.pend = @ \o r.out]
-             ELSE [W EXCEPT !.I = r.I, !.pend = @ \o r.out, !.latch = [some |-> TRUE, res |-> r.res]]
+             ELSE [W EXCEPT !.I = r.I, !.pend = @ \o r.out,
+                            !.latch = [some |-> TRUE, res |-> r.res,
+                                       caret |-> IF c.k = "submit" THEN CaretLines(r.I, r.res, c.text) ELSE NoCaret]]
 
 WStart(W, text) == Evaluate(W, CSubmit(text))
 WContinue(W) == Evaluate(W, CContinue)
@@ -63,7 +68,8 @@ WStateTraps(W) == ~W.latch.some /\ W.I.mode = "new"
 (***************************************************************************)
 NewPage == [W |-> NewAdapter, full |-> TRUE, timers |-> 0, shown |-> <<>>, inputOn |-> TRUE]
 
-ShownErr(res) == [t |-> "error", text |-> <<>>, line |-> IF res.hl THEN res.line ELSE IMM, what |-> res.kind, unk |-> FALSE]
+ShownErr(latch) == [t |-> "error", text |-> JoinWith(latch.caret.lines, <<LF>>), line |-> IF latch.res.hl THEN latch.res.line ELSE IMM,
+                    what |-> latch.res.kind, unk |-> ~latch.caret.ok]
 
 RECURSIVE HandleState(_, _)
 HandleState(P, fuel) == \* handleCurrentState
@@ -75,7 +81,7 @@ HandleState(P, fuel) == \* handleCurrentState
              IN  CASE st = "idle" -> IF ~P1.full THEN [P1 EXCEPT !.inputOn = FALSE] ELSE P1
                    [] st = "awaiting" -> P1
                    [] st = "errored" ->                                         \* take_latest_error, print, handle again
-                        HandleState([P1 EXCEPT !.shown = Append(@, ShownErr(P1.W.latch.res)), !.W.latch = NoLatch], fuel - 1)
+                        HandleState([P1 EXCEPT !.shown = Append(@, ShownErr(P1.W.latch)), !.W.latch = NoLatch], fuel - 1)
                    [] st = "running" -> [P1 EXCEPT !.W = WContinue(@), !.timers = @ + 1]
                    [] OTHER -> [P1 EXCEPT !.W = Trap(@, "get_state_saw_new_interpreter_state")]
 
